@@ -15,7 +15,7 @@ from ..hdl.harness import run_configs, Refused
 
 PROP = "C19"
 LEVEL = "exploration"
-CLAUSES = ["elaborates", "terminates", "repeatable", "metadata_kept"]
+CLAUSES = ["elaborates", "terminates", "repeatable", "metadata_kept", "no_trace_of_earlier_elaboration"]
 
 
 class Internal(Exception):
@@ -232,6 +232,31 @@ def check_config(ctx, c):
         result("metadata_kept", before == after, f"memory map changed by elaboration: {before} -> {after}" if before != after else "",
                f"metadata_kept:{kind}")
         ctx.nontrivial = len(texts[0]) > 400
+        # An elaboration must leave no trace: "add k subordinates, elaborate, add one more, elaborate" has to give the very
+        # hardware that "add k+1 subordinates, elaborate" gives (decoders and the arbiter stay extensible after elaboration).
+        nsub = {"csr_decoder": lambda c_: len(c_["subs"]), "wb_decoder": lambda c_: len(c_["subs"]), "arbiter": lambda c_: c_["n"]}.get(kind)
+        if nsub is not None and nsub(cfg) >= 2:
+            from . import C06, C07, arbiter
+            builder = {"csr_decoder": C06.build, "wb_decoder": C07.build, "arbiter": arbiter.build}[kind]
+            try:
+                comp2, subs2, add_later = builder(cfg, upto=nsub(cfg) - 1)
+
+                def conv(c_):
+                    ports = [sg.as_value() if hasattr(sg, "as_value") else sg for _p, _m, sg in c_.signature.flatten(c_)]
+                    return rtlil.convert(c_, ports=ports)
+                conv(comp2)
+                add_later(nsub(cfg) - 1)
+                late = conv(comp2)
+                same2 = late == texts[0]
+                result("no_trace_of_earlier_elaboration", same2,
+                       "" if same2 else "elaborate -> add() -> elaborate differs from add() -> elaborate on a fresh instance "
+                                        f"(RTLIL lengths {len(late)} vs {len(texts[0])})",
+                       f"no_trace_of_earlier_elaboration:{kind}")
+            except Refused:
+                pass
+            except Exception as e:
+                result("no_trace_of_earlier_elaboration", False, f"{type(e).__name__}: {e} at {where(e)}",
+                       f"no_trace_of_earlier_elaboration:{kind}:{type(e).__name__}")
     finally:
         signal.alarm(0)
         signal.signal(signal.SIGALRM, old)
